@@ -476,6 +476,22 @@ Theorem C08_cost_minimal_partial :
 Proof. exact ky_fan_min_centred. Qed.
 Print Assumptions C08_cost_minimal_partial.
 
+(* the optimality clause of C08 in one statement (same oracle contract): what the smallest-eigenvalue
+   selection with skip = 1 returns has orthonormal columns that sum to zero, and NO orthonormal centred Y
+   has a smaller alignment cost *)
+Theorem C08_embedding_optimal_partial :
+  forall (N d : nat) (M E : mat Qc) (lam : vec Qc) (c0 : Qc),
+    eig_contract N M E lam ->
+    meq N N (mmul N E (mtrans E)) mI ->
+    (forall i, i < N -> E i 0 = c0) -> c0 <> 0%F ->
+    (forall i j, i <= j -> j < N -> qle (lam i) (lam j)) -> 1 + d <= N ->
+    orthonormal_cols N d (select_smallest 1 d E) /\
+    centred_cols N d (select_smallest 1 d E) /\
+    forall Y, orthonormal_cols N d Y -> centred_cols N d Y ->
+              qle (cost N d M (select_smallest 1 d E)) (cost N d M Y).
+Proof. exact embedding_optimal. Qed.
+Print Assumptions C08_embedding_optimal_partial.
+
 Example C08_cost_minimal_nonvacuous :
   eig_contract 4 c08_M4 c08_E4 c08_lam4 /\
   meq 4 4 (mmul 4 c08_E4 (mtrans c08_E4)) mI /\
